@@ -117,6 +117,22 @@ def run(tier, rng, C):
         cases.append({'id': a, 'line': V.stack_line(a, 'value', inline), 'show': V.stack_show(inline), 'nontrivial': False})
         cases.append({'id': b, 'line': V.stack_line(b, 'value', refd), 'show': V.stack_show(refd)[:600], 'nontrivial': True, 'twin': a})
 
+    # a layer given by a reference whose path is computed (${lists:${which}}), the referenced value mentioning the
+    # selector again: the twin writes the value out
+    for i in range(60 if tier == 'quick' else 1500):
+        sel = rng.choice(['a', 'b'])
+        kind = rng.choice('lm')
+        tgt = {k: (('l', [S('${which}'), S(k)]) if kind == 'l' else ('m', [(S('tag'), S('env-${which}')), (S(k), I(1))])) for k in 'ab'}
+        first = ('l', [S('first')]) if kind == 'l' else M(('first', I(0)))
+        last = ('l', [S('last')]) if kind == 'l' else M(('last', I(9)))
+        common = [(S('which'), S(sel)), (S('lists'), ('m', [(S(k), v) for k, v in tgt.items()])), (S('ptr'), S('lists:' + sel))]
+        refform = S(rng.choice(['${lists:${which}}', '${lists:${which}}', '${${ptr}}']))
+        refd = [('m', common + [(S('t'), first)]), M(('t', refform)), M(('t', last))]
+        inline = [('m', common + [(S('t'), first)]), M(('t', tgt[sel])), M(('t', last))]
+        a, b = C.case_id('ci', i), C.case_id('cr', i)
+        cases.append({'id': a, 'line': V.stack_line(a, 'value', inline), 'show': V.stack_show(inline), 'nontrivial': False})
+        cases.append({'id': b, 'line': V.stack_line(b, 'value', refd), 'show': V.stack_show(refd), 'nontrivial': True, 'twin': a})
+
     def get_t(o):
         v = C.canon_value(o)
         d = {k[1]: x for k, x, _ in v[1] if k and k[0] == 'str'}
